@@ -335,7 +335,33 @@ def gen_plan(seed: int, cls: str) -> dict:
                         'k': ro.choice([1, 1, 2, 3]), 'exc': ro.choice(['RuntimeError', 'KeyError', 'ValueError'])})
     if knobs.get('hpair'):
         ops.extend(_role_collision_scenario(ro, sym, roots, knobs, hspecs, nroot))
+    if ro.random() < 0.5:
+        ops.extend(_serialise_history_scenario(ro, sym, roots, ninst))
     return {'prop': PROP, 'seed': seed, 'cls': cls, 'knobs': knobs, 'ops': ops}
+
+
+def _serialise_history_scenario(ro, sym, roots, ninst):
+    """
+    Several values of one (union-bearing) type serialised through the same memoised converter:
+    a converter that remembers anything about earlier values shows up here.
+    """
+    cands = [r for (r, a) in sorted(roots.items()) if tg.contains(a, lambda x: x[0] in ('union', 'opt', 'vol'))]
+    if not cands:
+        return []
+    r = ro.choice(cands)
+    out = []
+    names = []
+    for _ in range(ro.choice([2, 3, 4])):
+        iname = f'i{ninst}'
+        ninst += 1
+        names.append(iname)
+        out.append({'op': 'keep', 'as': iname, 'root': r, 'custom': None,
+                    'data': tg.enc(tg.sample_value(roots[r], sym, ro, valid_p=1.0))})
+    order = names * 2
+    ro.shuffle(order)
+    for iname in order[:ro.choice([2, 3, 4, 5])]:
+        out.append({'op': 'serialise', 'inst': iname, 'root': r, 'infer': False, 'roundtrip': ro.random() < 0.3, 'custom': None})
+    return out
 
 
 def _role_collision_scenario(ro, sym, roots, knobs, hspecs, nroot):
@@ -937,18 +963,21 @@ def execute(plan, want_trace=False) -> dict:
 
 
 def run_one(cfg, item):
+    from .kernel import run_isolated
+    return run_isolated(_run_one, cfg, item)
+
+
+def _run_one(cfg, item):
     from .kernel import run_seed
     (cls, index) = item
     seed = run_seed(cfg['verif_seed'], PROP, cls, index)
-    reset_world()
     plan = gen_plan(seed, cls)
     res = execute(plan)
     res['cls'], res['index'], res['seed'] = cls, index, seed
     if res['violation'] is not None or cfg.get('keep_plan'):
         res['plan'] = plan
     if index < cfg.get('sample', 0):
-        reset_world()
-        r2 = execute(plan, want_trace=True)
+        r2 = execute_isolated(plan, want_trace=True)
         res['sample'] = {'class': cls, 'index': index, 'seed': seed, 'plan': plan, 'trace': r2['trace']}
     return res
 
@@ -1458,3 +1487,8 @@ def coverage(agg, conf):
     }
     cov.update(agg.get('extra', {}))
     return cov
+
+
+def execute_isolated(plan, want_trace=False):
+    from .kernel import run_isolated
+    return run_isolated(execute, plan, want_trace)
